@@ -145,10 +145,6 @@ def work(shard):
         return P
     for o in ordinals:
         node, gseg = rs[o], gs[o]
-        if len(node.syntax) != len(gseg.syntax):
-            case = {'map': fname, 'path': gseg.path, 'ordinal': o, 'note': gseg.syntax[0], 'L': 0, 'present': [], 'fill': 0, 'level': 1}
-            P.bad('C14|parse|dropped|%s' % '/'.join(gseg.syntax), case, '%s %s: map lists %r, node kept %r' % (fname, gseg.path, gseg.syntax, node.syntax))
-            continue
         comps = set(c.seq for c in gseg.children if c.kind == 'comp')
         for text in gseg.syntax:
             kind, idx = G.syntax_parts(text)
